@@ -399,6 +399,12 @@ func checkTree(r *vk.Run, v ref.AVal) {
 	if lerr != nil || ln != len(enc) || !sameVal(v, lv, true) {
 		r.Violation(fmt.Sprintf("tree/decode/kind=%d", v.Kind), fmt.Sprintf("valid AMF0 %v (hex %x): lal consumed=%d/%d err=%v got=%v", v, enc, ln, len(enc), lerr, lv), rp)
 	}
+	// the same bytes as a metadata body behind a short-form and a long-form @setDataFrame string
+	if len(v.Pairs) <= 2 {
+		checkBytes(r, append(append([]byte{}, sdf...), enc...), "sdf-prefixed")
+		checkBytes(r, append(append([]byte("\x0c\x00\x00\x00\x0d@setDataFrame"), ref.AEncode(ref.AVal{Kind: ref.AString, Str: "onMetaData"})...), enc...), "longsdf-prefixed")
+		checkBytes(r, append(append([]byte{}, sdf...), append(ref.AEncode(ref.AVal{Kind: ref.AString, Str: "onMetaData"}), enc...)...), "sdf-meta")
+	}
 	// every strict prefix: must not panic, must stay in bounds
 	for cut := 0; cut < len(enc); cut++ {
 		checkBytes(r, enc[:cut], "prefix")
